@@ -77,6 +77,18 @@ def _eq(chk, name, fkey, pc, code, spec, replay=None):
     return out
 
 
+def _concretise(chk, name, fk, expr, reference):
+    """cross-check of the engine (pyvc.concrete) in the xy chart: the symbolic value with the coordinates of a real L-shaped polygon in the plane
+    z = d (counter-clockwise, normal +z, where kabsch's identity clause applies) against the same getter run by CPython"""
+    from pyvc import concrete
+    from .common import real_coxeter
+    L = np.array([[0.0, 0], [3, 0], [3, 1], [1, 1], [1, 3], [0, 3]]) + np.array([0.5, -0.25])
+    d_ = 0.75
+    o = real_coxeter().shapes.Polygon(np.c_[L, np.full(len(L), d_)])
+    env = concrete.Env(sizes={G.P: len(L)}, arrays={"px": lambda k: L[int(k) % len(L), 0], "py": lambda k: L[int(k) % len(L), 1]}, scalars={G.dd: d_})
+    concrete.cross_check(chk, name, fk, expr, env, (), np.asarray(reference(o)), rtol=1e-9)
+
+
 def run(chk):
     ld = chk.loader()
     shapes = ld.load("coxeter.shapes")
@@ -141,6 +153,9 @@ def run(chk):
                 t = f"{chart}:{path_tag(p)}"
                 sa, ar, pe = (ex(v) for v in p.value)
                 _eq(chk, f"signed_area:post[{t}]", fk_sa, p.pc, sa, A2 / 2, replay=replay_polygon("signed_area"))
+                if chart == "xy":
+                    _concretise(chk, f"Polygon.signed_area[{t}]", fk_sa, sa, lambda o: o.signed_area)
+                    _concretise(chk, f"Polygon.perimeter[{t}]", fk_pe, pe, lambda o: o.perimeter)
                 _eq(chk, f"area:post[{t}]", fk_ar, p.pc, ar, area, replay=replay_polygon("area"))
                 _eq(chk, f"perimeter:post[{t}]", fk_pe, p.pc, pe, perim, replay=replay_polygon("perimeter"))
         return task
@@ -156,6 +171,9 @@ def run(chk):
             for p in chk.explore(fk_ce, run_c, assumptions=facts + [sp.Ne(A2, 0)]):
                 t = f"{chart}:{path_tag(p)}"
                 cen, R = p.value
+                if chart == "xy":
+                    for j in range(3):
+                        _concretise(chk, f"Polygon.centroid[{'xyz'[j]}][{t}]", fk_ce, ex(cen[j]), lambda o, j=j: o.centroid[j])
                 for j in range(3):
                     spec = cx * R[0, j] + cy * R[1, j] + G.dd * R[2, j]
                     _eq(chk, f"centroid:post[{'xyz'[j]}][{t}]", fk_ce, p.pc, ex(cen[j]), spec,
@@ -174,6 +192,8 @@ def run(chk):
                 t = f"{chart}:{path_tag(p)}"
                 (ix, iy, ixy), po = p.value
                 if chart == "xy":
+                    for nm_, v_, k_ in (("Ix", ix, 0), ("Iy", iy, 1), ("Ixy", ixy, 2)):
+                        _concretise(chk, f"Polygon.planar_moments_inertia[{nm_}][{t}]", fk_pm, ex(v_), lambda o, k_=k_: o.planar_moments_inertia[k_])
                     # the property pins I_x, I_y, I_xy for polygons in the xy-plane with +z normal
                     _eq(chk, f"moments:Ix[{t}]", fk_pm, p.pc + pos, ex(ix), sgn * G.fan(Y**2), replay=replay_polygon("Ix"))
                     _eq(chk, f"moments:Iy[{t}]", fk_pm, p.pc + pos, ex(iy), sgn * G.fan(X**2), replay=replay_polygon("Iy"))
